@@ -217,7 +217,8 @@ class TRec(Ty):
         return _dt_cache[key]
 
     def mk(self, *ts):
-        return getattr(self.sort(), "mkr_" + _mangle(self.cls.rsplit(".", 1)[-1]))(*ts)
+        c = getattr(self.sort(), "mkr_" + _mangle(self.cls.rsplit(".", 1)[-1]))
+        return c(*ts) if self.fields else c
 
     def get(self, t, fname):
         return getattr(self.sort(), f"{_mangle(self.cls.rsplit('.', 1)[-1])}_{_mangle(fname)}")(t)
